@@ -100,6 +100,14 @@ def r1_gmp(ctx):
                     isinstance(a[1], dict) and a[1].get("k") == "mem" and is_param(a[1].get("b"), fn, 0)
                 zero = isinstance(strip(rel[0].get("R")), dict) and strip(rel[0]["R"]).get("v") == "0"
                 okc = first_this and zero and rel[0]["op"] == CMP[fn["name"]]
+            if not okc and not cmpc and cls == "q_number" and fn["name"] == "operator==":
+                # mpq_equal(this, x) != 0 is the same function on canonical operands (invariant decided by C20.r6)
+                eq = [n for nm, n in calls if nm == "q_equal"]
+                rel = [n for n in walk(fn["body"]) if n.get("k") == "bin" and n.get("op") in ("==", "!=") and
+                       any(x is c for c in eq for x in walk(n.get("L")))]
+                if len(eq) == 1 and len(rel) == 1 and strip(rel[0].get("R")).get("v") == "0" and rel[0]["op"] == "!=":
+                    cmpc = eq
+                    okc = True
             if okc:
                 ctx.ok("%s::%s: cmp(this, x) %s 0" % (cls, fn["name"], CMP[fn["name"]]), fn, cmpc[0])
             else:
@@ -441,3 +449,53 @@ def r5_negation(ctx):
 
 
 RULES = [r1_gmp, r2_safeint, r3_builders, r4_taut_contra, r5_negation]
+
+
+def r6_canonical(ctx):
+    ctx.rule("C20.r6", "GMP protocol: a rational assembled from raw parts (numerator/denominator pair, string) is canonicalised "
+             "(mpq_canonicalize) before it can be compared or rounded; routes that GMP documents as canonical are listed", floor=6)
+    fs = [f for f in ctx.db.fns(BIG, cpk="ikos::q_number") if f.get("ctor") or f.get("static")]
+    if not ctx.need(fs, "q_number constructors / factories"):
+        return
+    CANONICAL_SETTERS = {"__gmpq_init": "0/1", "__gmpq_set_d": "GMP: exact conversion, canonical result", "__gmpq_set_z": "n/1",
+                         "__gmpq_set": "copies a rational (canonical if the source is: class invariant)",
+                         "__gmpq_set_si": "caller passes den=1 here", "__gmpq_set_ui": "caller passes den=1 here"}
+    for fn in fs:
+        body = fn["body"]
+        raw = []
+        for n in walk(body):
+            if n.get("k") != "call" or not callee(n):
+                continue
+            nm = callee(n)["name"]
+            a = n.get("a", [])
+            if nm == "__gmpq_set_str":
+                raw.append((n, "mpq_set_str (GMP manual: the fraction is stored as written; mpq_canonicalize must be called unless it is "
+                               "known to be canonical)"))
+            elif nm in ("__gmpz_init_set", "__gmpz_set", "__gmpz_set_si", "__gmpz_set_ui", "__gmpz_init_set_si", "__gmpz_init_set_ui") and len(a) >= 2:
+                dst_part = [x.get("n") for x in walk(a[0]) if x.get("k") == "mem" and x.get("n") in ("_mp_num", "_mp_den")]
+                src_part = [x.get("n") for x in walk(a[1]) if x.get("k") == "mem" and x.get("n") in ("_mp_num", "_mp_den")]
+                if dst_part and dst_part != src_part:
+                    raw.append((n, "numerator/denominator written directly from an integer"))
+        if not raw:
+            ctx.ok("%s(%s): only canonical GMP setters / part-wise copy of a rational" % (fn["name"], fn["psig"][:50]), fn, body)
+            continue
+
+        def gen(n):
+            if is_call(n, name="__gmpq_canonicalize"):
+                return ("canon",)
+            return ()
+        f = paths.must_events(body, gen)
+        leaks = [r for r, st in f.returns if "canon" not in st]
+        # the raw write must precede the canonicalisation
+        late = [n for n, why in raw if "canon" in f.at.get(id(n), ())]
+        if leaks or late:
+            n, why = raw[0]
+            ctx.bad("q_number::%s(%s) fills the rational through %s and returns without mpq_canonicalize: a negative denominator or a "
+                    "common factor survives, and mpq_cmp / sign tests / round_to_lower|upper (which assume GMP's canonical form) give "
+                    "wrong answers (e.g. 7/-2 < 0 is false)" % (fn["name"], fn["psig"][:50], why), fn, n,
+                    sig="q-not-canonical:%s(%s)" % (fn["name"], fn["psig"]))
+        else:
+            ctx.ok("%s(%s): raw parts canonicalised" % (fn["name"], fn["psig"][:50]), fn, raw[0][0])
+
+
+RULES += [r6_canonical]
